@@ -5,6 +5,8 @@ import GqlgenVerif.Model.Flavour
 import GqlgenVerif.Model.PkgName
 import GqlgenVerif.Model.EmbedPath
 import GqlgenVerif.Model.ExecLayout
+import GqlgenVerif.Gen.BuildGuards
+import GqlgenVerif.Model.DirArgs
 /-! Line-protocol driver for C17: the naming model on the harness's cases. Text travels as hex of UTF-8;
 the model works on code points (the harness sends ASCII, type identifiers are returned as code points
 re-encoded to UTF-8). -/
@@ -285,8 +287,63 @@ def rootStep : List String → Option String
     pure s!"declared={j d} called={j c} missing={j (c.filter fun n => !d.contains n)}"
   | _ => none
 
+def parseFiles (s : String) : List String := if s == "-" || s == "" then [] else s.splitOn ","
+
+/-- the per-schema-file builds of exec layout follow-schema (Model/Builds.lean over Gen/BuildGuards.lean) and the
+arguments of applied directives (Model/DirArgs.lean over Gen/DirArgRule.lean) -/
+def filesStep : List String → Option String
+  -- `passsafe`: per regenerated pass, can an iteration dereference a nil build
+  | ["passsafe"] =>
+    some (" ".intercalate (GqlgenVerif.Gen.BuildGuards.passes.map fun p =>
+      let bad := [false, true].filter fun pr => match GqlgenVerif.Builds.iter p.2.2 pr with
+        | some s => !s.present
+        | none => true
+      s!"{p.1}:{p.2.1}={if bad.isEmpty then "safe" else if bad.contains false then "nil-when-the-file-has-no-build-yet" else "nil-when-the-file-has-a-build"}"))
+  -- `persch <files of objects> <of inputs> <of interfaces/unions> <of referenced types>` (comma lists | -)
+  | ["persch", o, i, a, r] =>
+    let byField := fun (f : String) => if f == "Objects" then parseFiles o else if f == "Inputs" then parseFiles i
+      else if f == "Interfaces" then parseFiles a else if f == "ReferencedTypes" then parseFiles r else []
+    let rec go (ps : List (String × String × List GqlgenVerif.Builds.Step)) (b : List String) : String :=
+      match ps with
+      | [] => "files=" ++ (if b.isEmpty then "-" else ",".intercalate b)
+      | p :: rest =>
+        match GqlgenVerif.Builds.runPass p.2.2 (byField p.2.1) b with
+        | some b' => go rest b'
+        | none =>
+          -- the first element whose iteration dereferences nil
+          let rec first (fs : List String) (b : List String) : String :=
+            match fs with
+            | [] => "?"
+            | f :: fs' => match GqlgenVerif.Builds.iter p.2.2 (b.contains f) with
+              | none => f
+              | some s => first fs' (if s.present && !b.contains f then b ++ [f] else b)
+          s!"PANIC pass={p.1} file={first (byField p.2.1) b}"
+    some (go GqlgenVerif.Gen.BuildGuards.passes [])
+  -- Spec on the files the IMPLEMENTATION wrote
+  | ["chkfiles", o, i, a, r, impl] =>
+    let want := GqlgenVerif.Builds.specFiles [parseFiles o, parseFiles i, parseFiles a, parseFiles r]
+    let got := parseFiles impl
+    let missing := want.filter fun f => !got.contains f
+    let extra := got.filter fun f => !want.contains f
+    let j := fun (xs : List String) => if xs.isEmpty then "-" else ",".intercalate xs
+    some (if missing.isEmpty && extra.isEmpty && got.eraseDups.length == got.length then "ok"
+          else s!"violates:generated-files-differ missing={j missing} extra={j extra}")
+  -- `dirarg <definition default n|z|v> <use o|z|v>`
+  | ["dirarg", d, u] => do
+    let d ← (match d with | "n" => some GqlgenVerif.DirArgs.Dflt.none | "z" => some .null | "v" => some .value | _ => none)
+    let u ← (match u with | "o" => some GqlgenVerif.DirArgs.Use.omitted | "z" => some .null | "v" => some .value | _ => none)
+    let sv := fun (v : GqlgenVerif.DirArgs.Val) => match v with | .nil => "nil" | .dflt => "default" | .given => "given"
+    let sd := fun (x : Option (String × GqlgenVerif.DirArgs.Val)) => match x with | none => "none" | some (p, v) => s!"{p}:{sv v}"
+    match GqlgenVerif.DirArgs.useArg d u with
+    | none => pure "unreadable"
+    | some a =>
+      let bit := fun (x : Bool) => if x then "1" else "0"
+      pure s!"passed={(GqlgenVerif.DirArgs.passed a).getD "nil"} declared_fn={sd (GqlgenVerif.DirArgs.declared 0 a)} declared_m={sd (GqlgenVerif.DirArgs.declared 1 a)} effective={sv (GqlgenVerif.DirArgs.effective d u)} ok={bit (GqlgenVerif.DirArgs.closureOk 0 d u && GqlgenVerif.DirArgs.closureOk 1 d u)}"
+  | _ => none
+
 def step (line : String) : String :=
   if line == "flav" then flavStep else
+  if let some r := filesStep (line.splitOn " ") then r else
   if let some r := embedStep (line.splitOn " ") then r else
   if let some r := rootStep (line.splitOn " ") then r else
   if let some r := pkgStep (line.splitOn " ") then r else
